@@ -56,7 +56,7 @@ func verifStrOf(name string, lens ...int) string {
 
 // eth-style external address as accepted by ValidateExternalAddr: see VerifC03LemmaExternalAddr
 func verifValidEthAddr(name string) string {
-	k := rt.Bound("symbolicCharsPerAddress", 6, 12)
+	k := rt.Bound("symbolicCharsPerAddress", 6, 8)
 	s := rt.Str(name, k)
 	rt.Assume(rt.CharsIn(s, verifEthSet))
 	for len(s) < 42 {
@@ -257,7 +257,7 @@ func verifBridgeCall(p string, nTok int) *MsgBridgeCallClaim {
 // BridgeCallHandler, tx origin is passed to the EVM call, so both are execution-relevant).
 func VerifC03BridgeCall() {
 	verifSetup()
-	maxTok := rt.Bound("maxTokens", 1, 2)
+	maxTok := rt.Bound("maxTokens", 1, 1)
 	a := verifBridgeCall("a.", rt.Choose("a.ntokens", maxTok+1))
 	b := verifBridgeCall("b.", rt.Choose("b.ntokens", maxTok+1))
 	b.EventNonce = a.EventNonce // same event nonce (the quantifier of the property)
